@@ -131,28 +131,31 @@ func init() {
 				return []Obligation{anchorMissing("JSON.syntax-mapped", "Serializer.LoadWith")}
 			}
 			u := FuncUnit{fn, fd, pkg}
-			info := pkg.TypesInfo
 			targets := map[string]bool{}
 			setsCond := false
-			ast.Inspect(fd.Body, func(n ast.Node) bool {
-				switch x := n.(type) {
-				case *ast.CallExpr:
-					if stdFuncCalled(info, x, "errors", "As") && len(x.Args) == 2 {
-						if tv, ok := info.Types[x.Args[1]]; ok {
-							targets[tv.Type.String()] = true
+			// LoadWith and the private helpers it is split into
+			for _, hu := range c.withHelpers(u) {
+				info := hu.Pkg.TypesInfo
+				ast.Inspect(hu.Decl.Body, func(n ast.Node) bool {
+					switch x := n.(type) {
+					case *ast.CallExpr:
+						if stdFuncCalled(info, x, "errors", "As") && len(x.Args) == 2 {
+							if tv, ok := info.Types[x.Args[1]]; ok {
+								targets[tv.Type.String()] = true
+							}
 						}
-					}
-				case *ast.AssignStmt:
-					if len(x.Lhs) == 1 && len(x.Rhs) == 1 {
-						if se, ok := ast.Unparen(x.Lhs[0]).(*ast.SelectorExpr); ok && se.Sel.Name == "Str" {
-							if s, ok := constStringVal(info, x.Rhs[0]); ok && s == "json:syntax-error" {
-								setsCond = true
+					case *ast.AssignStmt:
+						if len(x.Lhs) == 1 && len(x.Rhs) == 1 {
+							if se, ok := ast.Unparen(x.Lhs[0]).(*ast.SelectorExpr); ok && se.Sel.Name == "Str" {
+								if s, ok := constStringVal(info, x.Rhs[0]); ok && s == "json:syntax-error" {
+									setsCond = true
+								}
 							}
 						}
 					}
-				}
-				return true
-			})
+					return true
+				})
+			}
 			hasStd, hasOwn := false, false
 			for t := range targets {
 				if strings.Contains(t, "encoding/json.SyntaxError") {
